@@ -308,6 +308,13 @@ func drawDefect(rt *rapid.T) Defect {
 				// what a header looks like to a parser that expects none / another one ("CVSS:2.0/AV:N/..." is a
 				// v2.0 vector with the unknown metric CVSS in front)
 				a = []string{"CVSS", "cvss", "Cvss", "CVSS2", "CVSSv2", "CVSS3", "VERSION", "V"}[rapid.IntRange(0, 7).Draw(rt, "hdrabv")]
+			} else if rapid.IntRange(0, 7).Draw(rt, "punct") == 0 {
+				// an abbreviation that starts or ends with a punctuation byte next to the separators in the ASCII table
+				// ('.' = '/'^1, '-', ',', '0', ';' = ':'^1, '9'): a word-at-a-time separator scan that is exact only for the
+				// first match in a word cuts such an element in the wrong place
+				pc := string(".-,0;9!_ "[rapid.IntRange(0, 8).Draw(rt, "pchar")])
+				body := rapid.StringMatching(`[A-Za-z]{1,3}`).Draw(rt, "pbody")
+				a = []string{pc + body, body + pc, pc + body + pc}[rapid.IntRange(0, 2).Draw(rt, "pshape")]
 			} else if rapid.IntRange(0, 3).Draw(rt, "abvsrc") == 0 {
 				a = rapid.StringMatching(`[A-Za-z]{1,4}`).Draw(rt, "rndabv")
 			} else {
